@@ -986,7 +986,8 @@ class Standard(Output):
         YY = np.array([loc.lat for loc in data.locations])
         contrib = error_x - error_y
 
-        Ivalid = np.where(np.isnan(contrib) == 0)[0]
+        # Infinite contributions (e.g. an infinite ignorance score) cannot be drawn to scale
+        Ivalid = np.where(np.isfinite(contrib))[0]
         if len(Ivalid) == 0:
             verif.util.error("No valid data")
         contrib = contrib[Ivalid]
